@@ -331,7 +331,7 @@ class Configs(Facet):
                     for op in ops:
                         y = {"letters": ys, "mode": "coded", "tag": "y"}
                         if op == "**":
-                            y = {"letters": ys, "mode": "frac", "tag": "y", "vals": ["2", "1", "3", "0"]}
+                            y = {"letters": ys, "mode": "float", "tag": "y", "vals": [2.0, 1.0, 3.0, 0.0]}
                         yield {
                             "universe": U,
                             "form": "binary",
